@@ -5,10 +5,12 @@ package main
 import (
 	"fmt"
 	"os"
+	"path/filepath"
 	"regexp"
 	"sort"
 	"strings"
 	"sync"
+	"time"
 
 	"github.com/a14e/gogreement/src/reporting"
 
@@ -226,6 +228,79 @@ func checkC17(replay string) {
 			r.Distinct(t.code + "/suppress")
 		}
 	})
+	// annotated real-world corpora: the same format / table / position / help-link checks on every diagnostic
+	{
+		deps := []corpusDep{corpusDeps[0], corpusDeps[2], corpusDeps[3]}
+		if r.Thorough() {
+			deps = corpusDeps
+		}
+		root, err := makeInjectedCorpus(deps)
+		if err != nil {
+			os.RemoveAll(root)
+			base.Harness("corpus copy: %v", err)
+		}
+		st, err := gen.InjectAnnotations(filepath.Join(root, "deps"), base.NewRand(r.Seed, "c17-corpus"), 30)
+		if err != nil {
+			base.Harness("inject: %v", err)
+		}
+		var pats []string
+		for _, d := range deps {
+			pats = append(pats, d.patterns...)
+		}
+		res := ggrun.Run(ggrun.Opts{Dir: root, Args: append([]string{"-test=false"}, pats...), Timeout: 10 * time.Minute})
+		if bad, why := res.Crashed(false); bad {
+			r.Violate("crash/corpus", why+"\n"+head(res.Stderr, 2000), nil)
+		}
+		nCorpus := 0
+		for _, d := range res.Diags {
+			r.Eval(1)
+			nCorpus++
+			lines := strings.Split(d.Msg, "\n")
+			m := anyCodeRe.FindAllStringSubmatch(lines[0], -1)
+			if !strings.HasPrefix(lines[0], "error: [") || len(m) == 0 {
+				r.Violate("format/corpus/header", fmt.Sprintf("corpus diagnostic header %q", lines[0]), nil)
+				continue
+			}
+			code := m[0][1]
+			cat, known := refCodes[code]
+			if !known {
+				r.Violate("format/corpus/unknown-code", fmt.Sprintf("%q", lines[0]), nil)
+				continue
+			}
+			if d.Analyzer != refAnalyzer[cat] {
+				r.Violate("format/corpus/analyzer-category", fmt.Sprintf("%s reported by %s", code, d.Analyzer), nil)
+			}
+			if !strings.Contains(d.Msg, "   = help: https://") || !strings.Contains(d.Msg, "/"+refPage[cat]+"\n") {
+				r.Violate("format/corpus/help-link", fmt.Sprintf("%s: %q", code, head(d.Msg, 400)), nil)
+			}
+			// position: inside the copied module tree, in a .go file of the analysed package directory
+			abs := d.File
+			if !filepath.IsAbs(abs) {
+				abs = filepath.Join(root, d.File)
+			}
+			if b, err := os.ReadFile(abs); err != nil {
+				r.Violate("format/corpus/position-unreadable-file", fmt.Sprintf("%s at %s:%d", code, d.File, d.Line), nil)
+			} else if sl := strings.Split(string(b), "\n"); d.Line < 1 || d.Line > len(sl) {
+				r.Violate("format/corpus/position-outside-file", fmt.Sprintf("%s at %s:%d", code, d.File, d.Line), nil)
+			} else {
+				_, exs, _, _ := parseMessage(d.Msg)
+				for _, e := range exs {
+					if e.num == d.Line {
+						if ok, _, why := validExcerpt(e.text, strings.TrimSuffix(sl[d.Line-1], "\r"), reporting.MaxLineLength, d.Col); !ok {
+							r.Violate("format/corpus/excerpt", fmt.Sprintf("%s at %s:%d: %s", code, d.File, d.Line, why), nil)
+						}
+					}
+				}
+			}
+			mu.Lock()
+			codeCount[d.Code]++
+			mu.Unlock()
+			r.Distinct(d.Code + "/corpus-format")
+		}
+		r.Obs("corpus_diagnostics_checked", nCorpus)
+		r.Obs("corpus_injected_annotations", st.Annotations)
+		os.RemoveAll(root)
+	}
 	r.Obs("diagnostics_checked_by_code", codeCount)
 	r.Obs("suppression_reruns_by_code", suppressed)
 	if r.NViol() == 0 && len(codeCount) < 16 {
